@@ -266,6 +266,15 @@ class Bounds:
             rels.extend(flow.relational(f))
         terms = list(extra_terms)
         rels = rels + list(self.axioms)
+        # a checked operation that was executed without its overflow assertion firing bounds its operands: a + b <= MAX, b <= a
+        for r in list(rels):
+            if r[0] == "False" and isinstance(r[1], tuple) and r[1] and r[1][0] == "ovf" and len(r[1]) == 4:
+                okind, oa, ob = r[1][1], r[1][2], r[1][3]
+                rng = ty_range(self.ev.tty.get(oa)) or ty_range(self.ev.tty.get(ob)) or INT_RANGES.get("usize")
+                if okind.startswith("Add") and rng:
+                    rels.append(("Le", ("bin", "Add", oa, ob), ("int", rng[1])))
+                elif okind.startswith("Sub") and rng:
+                    rels.append(("Le", ("bin", "Add", ob, ("int", rng[0])), oa))
         for r in rels:
             if r[0] in ("Lt", "Le", "Eq", "Ne"):
                 terms.extend([r[1], r[2]])
